@@ -42,8 +42,18 @@ func VerifSetPeerTimeout(d time.Duration) { peerTimeout = d }
 // VerifPool returns the reactor's pool.
 func VerifPool(bcR *BlockchainReactor) *BlockPool { return bcR.pool }
 
-// VerifMakeNextRequester is makeNextRequester without request.Start().
+// VerifMakeNextRequester is one iteration of makeRequestersRoutine (same guards on numPending
+// and the number of requesters; the sleeping branches do nothing here), with makeNextRequester
+// inlined without request.Start().
 func (pool *BlockPool) VerifMakeNextRequester() int {
+	_, numPending, lenRequesters := pool.GetStatus()
+	switch {
+	case numPending >= maxPendingRequests:
+		return lenRequesters
+	case lenRequesters >= maxTotalRequesters:
+		return lenRequesters
+	}
+
 	pool.mtx.Lock()
 	defer pool.mtx.Unlock()
 
